@@ -3,6 +3,8 @@ package buffer
 import (
 	"errors"
 	"io"
+
+	"github.com/jeroenrinzema/psql-wire/pkg/types"
 )
 
 func vErrIsExceeded(err error) bool { return errors.Is(err, ErrMessageSizeExceeded) }
@@ -247,9 +249,29 @@ func VerifH10a() {
 	data := make([]byte, 0, 4+N)
 	data = append(data, hdr...)
 	data = append(data, body...)
+	// TYPED=1: the same through ReadTypedMsg (a symbolic type byte in front),
+	// the entry point of every message inside a session
+	typed := vParam("TYPED", 0) == 1
+	hlen := 4
+	var typ byte
+	if typed {
+		typ = nondetByte()
+		data = append([]byte{typ}, data...)
+		hlen = 5
+	}
 	st := &vStream{data: data, failAt: -1}
 	rd := &Reader{Buffer: st, MaxMessageSize: L}
-	n, err := rd.ReadUntypedMsg()
+	var n int
+	var err error
+	if typed {
+		var got types.ClientMessage
+		got, n, err = rd.ReadTypedMsg()
+		if err == nil {
+			vAssert("typed-type-byte", byte(got) == typ)
+		}
+	} else {
+		n, err = rd.ReadUntypedMsg()
+	}
 
 	declared := uint32(hdr[0])<<24 | uint32(hdr[1])<<16 | uint32(hdr[2])<<8 | uint32(hdr[3])
 	size := int(declared) - 4
@@ -259,7 +281,7 @@ func VerifH10a() {
 		vAssert("exceeded-kind", is)
 		vAssert("exceeded-carries-size", ex.Size == size)
 		vAssert("exceeded-carries-limit", ex.Max == L)
-		vAssert("exceeded-header-only", st.pos == 4)
+		vAssert("exceeded-header-only", st.pos == hlen)
 		vAssert("exceeded-no-buffer", cap(rd.Msg) == 0)
 		vAssert("exceeded-matches-sentinel", vErrIsExceeded(err))
 		if declared < 4 {
@@ -274,7 +296,7 @@ func VerifH10a() {
 	vAssert("in-range-n", n == 4+size)
 	vAssert("in-range-len", len(rd.Msg) == size)
 	vAssert("in-range-body", vEqBytes(rd.Msg, body[:size]))
-	vAssert("in-range-consumed", st.pos == 4+size)
+	vAssert("in-range-consumed", st.pos == hlen+size)
 	if size == L {
 		vReach("exactly-at-limit")
 	}
